@@ -157,6 +157,24 @@ def generate(api):
     else:
         raise U("%s:%d: finish() no longer has the modelled skip-the-redraw guard: %s" % (rel, bf["guard"].lineno, guard))
 
+    # start(max=None): EVERY explicit maximum - 0 included - replaces the one the bar has; only an omitted one keeps it
+    sta = P.find_function(tree, "ProgressBar", "start", rel, decorators=())
+    bs = P.Template("""
+        self._start_time = time.time()
+        self._step = 0
+        self._percent = 0.0
+        if HOLE_given:
+            self._set_max_steps(max)
+        self.display()
+    """).match(sta.body, rel, "ProgressBar.start")
+    sargs = sta.args
+    if [a.arg for a in sargs.args] != ["self", "max"] or sargs.vararg or sargs.kwarg or sargs.kwonlyargs \
+            or len(sargs.defaults) != 1 or not (isinstance(sargs.defaults[0], ast.Constant) and sargs.defaults[0].value is None):
+        raise U("%s:%d: start() no longer has the signature (self, max=None)" % (rel, sta.lineno))
+    if ast.unparse(bs["given"]) != "max is not None":
+        raise U("%s:%d: start() takes the new maximum under the condition `%s`, the model knows `max is not None` "
+                "(every explicit maximum, 0 included)" % (rel, bs["given"].lineno, ast.unparse(bs["given"])))
+
     # `_overwrite` records what is on the line: as top-level statements, and these attributes are written nowhere else
     # (but for the `= None` of __init__)
     def records(attr, value):
@@ -287,6 +305,8 @@ def generate(api):
     out.append("/-- `self._min_seconds_between_redraws = …` / `self._max_seconds_between_redraws = …` of `__init__`, in ticks -/")
     out.append("def initMinIntervalTicks : Nat := %d" % int(min_ticks))
     out.append("def initMaxIntervalTicks : Nat := %d" % int(max_ticks))
+    out.append("/-- `start(max)` hands every maximum that is not `None` to `_set_max_steps` (`if max is not None:`) -/")
+    out.append("def startTakesEveryExplicitMax : Bool := true")
     out.append("/-- `finish()` skips the redraw only when the frame on the line also shows the present maximum\n"
                "(`and self._displayed_max == self._max`, repair of D18b) -/")
     out.append("def finishComparesDisplayedMax : Bool := %s" % ("true" if compares_max else "false"))
